@@ -284,6 +284,24 @@ def nth_find(text, sub, occ, lo, hi):
     return pos
 
 
+def ws_find(text, sub, occ, lo, hi):
+    """Whitespace-insensitive search: the anchor's tokens in order with any white space (or none) between them.
+    Returns (start, end) of the occ-th match or None.  Used only when the exact text is not found (reformatting)."""
+    toks = re.findall(r'[A-Za-z_0-9]+|\S', sub)
+    if len(toks) < 3:
+        return None
+    parts = []
+    for a, b in zip(toks, toks[1:] + ['']):
+        parts.append(re.escape(a))
+        # two word tokens need white space between them; anything else may have none
+        parts.append(r'\s+' if (re.match(r'\w', a[-1]) and b and re.match(r'\w', b[0])) else r'\s*')
+    rx = re.compile(''.join(parts[:-1]))
+    ms = list(rx.finditer(text, lo, hi))
+    if len(ms) < occ:
+        return None
+    return ms[occ - 1].start(), ms[occ - 1].end()
+
+
 OPEN = '/*<cqv %s>*/'
 CLOSE = '/*</cqv>*/'
 
@@ -371,6 +389,12 @@ def annotate_function(src, m, fn, relpath, contract_only):
     for i_ in fn['inserts']:
         p = nth_find(src, i_['anchor'], i_['occ'], lb, rb)
         fuzzy = False
+        ws_end = None
+        if p < 0:
+            w = ws_find(src, i_['anchor'], i_['occ'], lb, rb)
+            if w:
+                p, ws_end = w
+                frep['transforms'].append('anchor %r matched up to white space' % i_['anchor'][:60])
         if p < 0:
             # tolerant re-anchoring: the statement was reformatted / an argument changed.  If the anchor
             # starts with a call `name(` that occurs exactly once in the function, anchor on that
@@ -397,6 +421,8 @@ def annotate_function(src, m, fn, relpath, contract_only):
                         break
                     q += 1
                 e = src.find('\n', q)
+            elif ws_end is not None:
+                e = src.find('\n', ws_end - 1)
             else:
                 e = src.find('\n', p)
             ins(e + 1, '\n'.join(i_['lines']) + '\n')
